@@ -183,6 +183,8 @@ func stallPeer(kind, point, addr string, first []byte) (func(), error) {
 		_, _ = c.Read(buf)
 		_ = c.SetDeadline(time.Time{})
 		return cl, nil
+	case "unix", "unixtls", "unixstarttls":
+		c, err = net.DialTimeout("unix", addr, 3*time.Second)
 	default:
 		c, err = net.DialTimeout("tcp", addr, 3*time.Second)
 	}
@@ -201,6 +203,24 @@ func stallPeer(kind, point, addr string, first []byte) (func(), error) {
 		_, _ = c.Write(first[:len(first)/2])
 	case "garbage":
 		_, _ = c.Write([]byte("\x00\x01\x02 garbage without a line end "))
+	case "httpget", "hangup", "tlsonplain":
+		// peers whose handshake fails outright and who are gone afterwards: a plain HTTP probe, a connect-and-hang-up,
+		// a TLS hello on a plain endpoint.  Nothing is left of them when the well-behaved client arrives.
+		switch point {
+		case "httpget":
+			_, _ = c.Write([]byte("GET / HTTP/1.1\r\nHost: localhost\r\n\r\n"))
+		case "tlsonplain":
+			_, _ = c.Write([]byte{0x16, 0x03, 0x01, 0x00, 0x05, 0x01, 0x00, 0x00, 0x01, 0x00, 0x0d, 0x0a, 0x0d, 0x0a})
+		}
+		_ = c.SetReadDeadline(time.Now().Add(time.Second))
+		buf := make([]byte, 4096)
+		for {
+			if _, err := c.Read(buf); err != nil {
+				break
+			}
+		}
+		_ = c.Close()
+		return func() {}, nil
 	case "between":
 		_, _ = c.Write(first)
 		buf := make([]byte, 4096)
@@ -262,7 +282,7 @@ func stallOnce(kind, point string, m int, d time.Duration) (string, string) {
 		if cl != nil {
 			defer cl()
 		}
-		if err != nil && point == "afterupgrade" {
+		if err != nil && (point == "afterupgrade" || cl == nil) {
 			return "fail:peer", err.Error()
 		}
 	}
@@ -315,6 +335,9 @@ func (stallComp) Gen(r *Rand, tier string, emit func(string)) {
 	emit("udp connect 1")
 	// the established client's session is held while the peers stay stalled (any handshake watchdog or deadline the
 	// server arms for the stalled peers expires meanwhile)
+	emit("tcp httpget 6")
+	emit("tcp hangup 6")
+	emit("unix httpget 5")
 	emit("dns version 3")
 	emit("dns other 2")
 	emit("tcp connect 1 12 sf")
@@ -327,6 +350,10 @@ func (stallComp) Gen(r *Rand, tier string, emit func(string)) {
 		emit("udp connect 1 25 sf")
 		emit("tcp connect 2 45 gf")
 		emit("tcp garbage 1 65 sf")
+		emit("tcp tlsonplain 8")
+		emit("ws httpget 8")
+		emit("tcptls httpget 8")
+		emit("udp httpget 5")
 		emit("dns version 1 70 sf") // the endpoint's once-a-minute retirement of silent sessions falls inside the hold
 		for _, k := range []string{"tcp", "starttls"} {
 			for _, p := range []string{"connect", "partial", "garbage", "between", "afterupgrade"} {
